@@ -28,6 +28,63 @@
    (b) a filter that fails does so inside its own frame before the next entry, so a source that
    became ready meanwhile cannot pre-empt it: the guarantee is that the filter was only CALLED on
    a message for which select_spec, on the CALLING entry's state, is Fail e. *)
+(* ------------------------------------------------------------------------------------------------
+   HOW THESE THEOREMS DISCHARGE THE PREMISES OF THE PROTOCOL CONE (sys/*.v, props/C04.v, C15.v)
+
+   The protocol model M-Sys (sys/Proto.v) abstracts the behaviour of a process: what one time slice
+   did is an input `did` of the step (d_sel: select state at the end of the slice, d_park: the pass
+   over the sources found nothing ready, d_act: the Action returned, d_forget: process sources
+   forgotten by complete_select, d_fin: the result).  Its no-lost-wake-up / quiescence theorems
+   hold for every schedule UNDER premises on `did`, which are properties of the select machine.
+   Below, left = premise in sys (file), right = theorem of THIS file about the select machine
+   (sel/Select.v: `step` = one execution of the Select instruction; a slice that parks ends with
+   such an entry, so "the slice parks" = "p_queued st' = false, p_error st' = None after an
+   entry of a runnable live process"; `step_action` = the Action the slice returns).
+
+   sys/ProtoParked.v  park_honest d mail', clause 1 (d_park = true -> every cursor of d_sel = |mail'|),
+     hence honest_step / honest_run, used by C04 parked_has_no_unseen_message
+        <-  C05_parks_only_after_full_scan          (all cursors = |mailbox|, start time set)
+            C05_never_parks_with_acceptable_message (in the machine's own terms: no message of the
+                                                     mailbox is acceptable to any receive source;
+                                                     also C05_parks_only_when_spec_waits above)
+   sys/ProtoParked.v  park_honest d mail', clause 2 (d_act = Some (AAwait ts) -> sl_start = None)
+        <-  C05_await_slice_has_not_started         (the Await slice is the initialising entry: start
+                                                     unset, parks, ts = the process sources in order)
+   sys/ProtoParked.v  time_honest now d  (d_sel = Some s, sl_start s = Some t0 -> no timeout of s due
+     at now), used by C04 no_timeout_due_at_last_check / no_timeout_due_after_step
+        <-  C05_never_parks_with_due_timeout        (for the slice that PARKS — by a pass or by an
+                                                     Await: `expired s' now = false`)
+            C05_parked_not_expired_at_same_clock    (check_expired_timeouts at the same clock leaves it)
+        NOTE: time_honest as written in sys is not conditional on d_park.  Unconditionally it is
+        FALSE of the select machine and of the real executor: a slice that ends RUNNABLE may end
+        with a due timeout (`! [0]` at quantum 1; `! [&f, 0]` while the filter f runs) — Example
+        ex_runnable_slice_may_end_with_due_timeout in sel/SelectRefine.v, real witness in the
+        corpus.  The proof of no_timeout_due_after_step only uses the premise for the slice's
+        process when it ends in `selecting` (the `Hreason` it discards), i.e. exactly what is
+        proved here; the premise should read `d_park d = true -> ...` (an Await-parked slice has
+        sl_start = None by clause 2 of park_honest).
+   sys/ProtoAwait.v  await_honestb, conjunct (a)  (a slice is executed only for a process with
+     p_res = None), used by C04 await_backed, parked_await_answer_in_flight, quiescent_no_ready
+        <-  C05_dead_process_runs_no_entry          (a process completed in place by a failure: the
+                                                     step only dequeues it; no entry, no Action)
+            (a process that finished normally is outside this model: it is never queued again)
+   sys/ProtoAwait.v  await_honestb, conjunct (b)  (d_act = Some (AAwait ts) -> every key of
+     fold aremove d_forget awaiting is in ts), with d_forget = the process sources of the selects
+     completed in the slice (complete_select, executor.rs ~2671-2681)
+        <-  C05_complete_select_clears_process_sources  (d_forget: the completing entry removes
+                                                     every process source of its select, from ANY map)
+            C05_completed_select_awaits_nothing     (so the next select starts from no key)
+            C05_awaiting_keys_subset_of_current_sources (invariant: every key is a process source
+                                                     of the current, uncompleted select)
+            C05_await_slice_leaves_only_its_targets (conjunct (b) itself)
+        These four are about the code since /repo 09625d4 (fix45 = true); for the code before it
+        conjunct (b) is false (C05_stale_await_kills_refuted: a completed select kept its keys).
+        "A process blocks in one select at a time": the machine has one select state; a select
+        inside a filter is rejected by handle_select_continuation (not modelled, see Select.v).
+   The correspondence (vplib/props/c05.py) evaluates every one of these premises on the REAL
+   executor after every slice of the process under test (counts `premise_*` in the evidence) and
+   compares `step_action` with the Action the real step returned.
+   ------------------------------------------------------------------------------------------------ *)
 From Quiver Require Import Base.
 From Quiver Require Import sel.Select sel.SelectSpec sel.SelectProofs sel.SelectRefine sel.AwaitProofs.
 
@@ -218,3 +275,154 @@ Print Assumptions C05_stale_await_kills_refuted.
 Theorem C05_completed_select_survives_repaired : completed_select_survives true.
 Proof. exact completed_select_survives_repaired. Qed.
 Print Assumptions C05_completed_select_survives_repaired.
+
+(* ================================================================================================
+   The premises of the protocol cone, proved of the select machine (see the table at the top)
+   ================================================================================================ *)
+
+(* park_honest, clause 1: an entry parks a runnable live process only after scanning the whole
+   mailbox with every receive source: all cursors are at the end of the mailbox and the sources
+   have been evaluated (start time set) *)
+Theorem C05_parks_only_after_full_scan :
+  forall (fix45 : bool) (verdict_of : nat -> msg -> verdict) (written : list source)
+         (mb0 : list msg) (aw0 : list (pid * option value)) (evs : list event)
+         (st : proc) (now : Z) (st' : proc) (s : sel_state),
+    run fix45 verdict_of written evs (initial mb0 aw0) = Val st ->
+    step fix45 verdict_of written now st = Val st' ->
+    active now st s ->
+    p_queued st' = false ->
+    p_error st' = None ->
+    exists s' : sel_state,
+      p_sel st' = Some s' /\
+      p_selecting st' = true /\
+      ss_start s' <> None /\ Forall (fun c : nat => c = length (p_mailbox st')) (ss_cursors s').
+Proof. exact parks_only_after_full_scan. Qed.
+Print Assumptions C05_parks_only_after_full_scan.
+
+(* ... it never parks with an unseen matching message: no message left in the mailbox is
+   acceptable to any receive source *)
+Theorem C05_never_parks_with_acceptable_message :
+  forall (fix45 : bool) (verdict_of : nat -> msg -> verdict) (written : list source)
+         (mb0 : list msg) (aw0 : list (pid * option value)) (evs : list event)
+         (st : proc) (now : Z) (st' : proc) (s : sel_state),
+    run fix45 verdict_of written evs (initial mb0 aw0) = Val st ->
+    step fix45 verdict_of written now st = Val st' ->
+    active now st s ->
+    p_queued st' = false ->
+    p_error st' = None ->
+    forall (r : nat) (c : list nat) (t : bool),
+      nth_recv written r = Some (c, t) ->
+      forall m : msg, In m (p_mailbox st') -> compat c m = false \/ t = false /\ verdict_of r m = VdNil.
+Proof. exact never_parks_with_acceptable_message. Qed.
+Print Assumptions C05_never_parks_with_acceptable_message.
+
+(* park_honest, clause 2: the slice that returns Action::Await ts is the initialising entry: ts are
+   the process sources in written order, the start time is unset, the process parks, and exactly
+   ts are entered into `awaiting` with no result *)
+Theorem C05_await_slice_has_not_started :
+  forall (fix45 : bool) (verdict_of : nat -> msg -> verdict) (written : list source)
+         (now : Z) (st st' : proc) (ts : list pid),
+    step_action written now st = Some ts ->
+    step fix45 verdict_of written now st = Val st' ->
+    ts = pids_of written /\
+    ts <> [] /\
+    p_queued st' = false /\
+    p_selecting st' = true /\
+    (exists s' : sel_state,
+       p_sel st' = Some s' /\
+       ss_start s' = None /\
+       ss_sources s' = written /\
+       ss_receiving s' = None /\
+       p_awaiting st' =
+       fold_left (fun (aw : list (pid * option value)) (p : pid) => aw_insert p None aw) ts (p_awaiting st)).
+Proof. exact await_slice_has_not_started. Qed.
+Print Assumptions C05_await_slice_has_not_started.
+
+(* time_honest (for the slice that parks): whichever way an entry parks the process, no timeout
+   source of its select is due at the clock the entry ran with *)
+Theorem C05_never_parks_with_due_timeout :
+  forall (fix45 : bool) (verdict_of : nat -> msg -> verdict) (written : list source)
+         (mb0 : list msg) (aw0 : list (pid * option value)) (evs : list event)
+         (st : proc) (now : Z) (st' : proc),
+    run fix45 verdict_of written evs (initial mb0 aw0) = Val st ->
+    step fix45 verdict_of written now st = Val st' ->
+    runs now st ->
+    p_queued st' = false ->
+    p_error st' = None -> forall s' : sel_state, p_sel st' = Some s' -> expired s' now = false.
+Proof. exact never_parks_with_due_timeout. Qed.
+Print Assumptions C05_never_parks_with_due_timeout.
+
+(* ... so check_expired_timeouts of any later step at the same clock leaves it parked *)
+Theorem C05_parked_not_expired_at_same_clock :
+  forall (fix45 : bool) (verdict_of : nat -> msg -> verdict) (written : list source)
+         (mb0 : list msg) (aw0 : list (pid * option value)) (evs : list event)
+         (st : proc) (now : Z) (st' : proc),
+    run fix45 verdict_of written evs (initial mb0 aw0) = Val st ->
+    step fix45 verdict_of written now st = Val st' ->
+    runs now st -> p_queued st' = false -> p_error st' = None -> check_expired now st' = st'.
+Proof. exact parked_not_expired_at_same_clock. Qed.
+Print Assumptions C05_parked_not_expired_at_same_clock.
+
+(* await_honest (a): no entry is executed for a process whose result has been set in place by a
+   failure notification: the step takes it off the queue, returns no Action, changes nothing else *)
+Theorem C05_dead_process_runs_no_entry :
+  forall (fix45 : bool) (verdict_of : nat -> msg -> verdict) (written : list source)
+         (now : Z) (st st' : proc) (e : perr),
+    p_error st = Some e ->
+    step fix45 verdict_of written now st = Val st' ->
+    step_action written now st = None /\
+    p_sel st' = p_sel st /\
+    p_mailbox st' = p_mailbox st /\
+    p_awaiting st' = p_awaiting st /\
+    p_value st' = p_value st /\ p_error st' = Some e /\ p_queued st' = false.
+Proof. exact dead_process_runs_no_entry. Qed.
+Print Assumptions C05_dead_process_runs_no_entry.
+
+(* awaiting_keys_subset_of_current_sources (invariant, code since 09625d4): in every reachable
+   state of a process that started with no awaited key, every key of `awaiting` is a process
+   source of the current select, which exists and has not completed *)
+Theorem C05_awaiting_keys_subset_of_current_sources :
+  forall (verdict : nat -> msg -> verdict) (written : list source) (evs : list event)
+         (mb : list msg) (st : proc),
+    run true verdict written evs (initial mb []) = Val st ->
+    forall p : pid,
+      aw_has p (p_awaiting st) = true ->
+      p_value st = None /\
+      In (SrcProc p) written /\ (exists s : sel_state, p_sel st = Some s /\ ss_sources s = written).
+Proof. exact awaiting_keys_subset_of_current_sources. Qed.
+Print Assumptions C05_awaiting_keys_subset_of_current_sources.
+
+(* complete_select_clears_process_sources: the entry that completes a select removes every process
+   source of that select from `awaiting`, whatever the map held before *)
+Theorem C05_complete_select_clears_process_sources :
+  forall (verdict : nat -> msg -> verdict) (written : list source) (evs : list event)
+         (mb : list msg) (aw0 : list (pid * option value)) (st : proc) (now : Z)
+         (st' : proc) (v : value),
+    run true verdict written evs (initial mb aw0) = Val st ->
+    step true verdict written now st = Val st' ->
+    p_value st = None ->
+    p_value st' = Some v ->
+    forall p : pid, In (SrcProc p) written -> aw_has p (p_awaiting st') = false.
+Proof. exact complete_select_clears_process_sources. Qed.
+Print Assumptions C05_complete_select_clears_process_sources.
+
+(* ... hence a process that started with no awaited key awaits nothing once its select is over *)
+Theorem C05_completed_select_awaits_nothing :
+  forall (verdict : nat -> msg -> verdict) (written : list source) (evs : list event)
+         (mb : list msg) (st : proc),
+    run true verdict written evs (initial mb []) = Val st ->
+    p_value st <> None -> forall p : pid, aw_has p (p_awaiting st) = false.
+Proof. exact completed_select_awaits_nothing. Qed.
+Print Assumptions C05_completed_select_awaits_nothing.
+
+(* await_honest (b): when a slice ends with Action::Await on targets ts, every key that remains in
+   `awaiting` is one of ts *)
+Theorem C05_await_slice_leaves_only_its_targets :
+  forall (verdict : nat -> msg -> verdict) (written : list source) (evs : list event)
+         (mb : list msg) (st : proc) (now : Z) (st' : proc) (ts : list pid),
+    run true verdict written evs (initial mb []) = Val st ->
+    step_action written now st = Some ts ->
+    step true verdict written now st = Val st' ->
+    forall p : pid, aw_has p (p_awaiting st') = true -> In p ts.
+Proof. exact await_slice_leaves_only_its_targets. Qed.
+Print Assumptions C05_await_slice_leaves_only_its_targets.
